@@ -42,4 +42,25 @@ theorem runCalls_scaled {α : Type} [Mul α] (k : α) (dsp : List Ev → Ev → 
     have hinv' : DecInv (callObs (os i) st c).2 := by rw [callObs_st]; exact stepCall_inv (hos i) hinv c hc.1
     exact ih (i + 1) _ hinv' (fun c' hc' => hcs c' (List.mem_cons_of_mem _ hc'))
 
+/-- histories that mix all three APIs: every call is in simulation (`x0 = gzObs xg`), and every call that does not run the soft
+    clipper additionally satisfies the sample relation -/
+theorem runCalls_scaled_mixed {α : Type} [Mul α] (k : α) (dsp : List Ev → Ev → Mem α → Mem α) (hd : DspLocal dsp)
+    (os : Nat → Oracle) (hos : ∀ i, OracleOk (os i)) (cs : List Call) :
+    ∀ (i : Nat) (st : DecState), DecInv st → (∀ c ∈ cs, c.WF) →
+      List.Forall₂ (fun (cx : Call × CallObs) (x0 : CallObs) => x0 = gzObs cx.2 ∧ (noClip cx.1 = true → ScaledObs k dsp cx.2 x0))
+        (cs.zip (runCalls os i st cs).1) (runCalls os i (zg st) (cs.map gzCall)).1 := by
+  induction cs with
+  | nil => intro i st _ _; exact List.Forall₂.nil
+  | cons c cs ih =>
+    intro i st hinv hcs
+    have hc := hcs c (List.mem_cons_self ..)
+    show List.Forall₂ _
+      ((c, (callObs (os i) st c).1) :: cs.zip (runCalls os (i + 1) (callObs (os i) st c).2 cs).1)
+      ((callObs (os i) (zg st) (gzCall c)).1 :: (runCalls os (i + 1) (callObs (os i) (zg st) (gzCall c)).2 (cs.map gzCall)).1)
+    refine List.Forall₂.cons ⟨by rw [callObs_gz], fun hn => callObs_scaled k dsp hd (os i) st hinv c hn⟩ ?_
+    have h2 : (callObs (os i) (zg st) (gzCall c)).2 = zg (callObs (os i) st c).2 := by rw [callObs_gz]
+    rw [h2]
+    have hinv' : DecInv (callObs (os i) st c).2 := by rw [callObs_st]; exact stepCall_inv (hos i) hinv c hc
+    exact ih (i + 1) _ hinv' (fun c' hc' => hcs c' (List.mem_cons_of_mem _ hc'))
+
 end Opus.DecSkel
